@@ -600,9 +600,44 @@ class Scenario:
         self.emit("bufferless %d %d %d %d %d %d %d %d %d %s" % (wlog, r.randint(6, 12), r.randint(6, 12), 1, r.randint(4, 6), 0, strat, 0, len(sizes),
                                                                  " ".join(map(str, chunks))), kind="bufferless")
 
+    def blockapi(self, regression=None):
+        """R3: a block-level session (ZSTD_compressBlock) on the reused context: begin with a raw dictionary loaded into the
+        context / with an attached by-reference CDict / without, then blocks that are contiguous, at a new address, or cover
+        the previous block's addresses (a caller re-using its input buffer), some of them pieces of the dictionary itself."""
+        r = self.r
+        if regression is not None:
+            mode, level, doff, dsz, chunks = regression
+        else:
+            mode = r.randint(0, 1)
+            level = r.choice([1, 2, 3, 4, 5, 6, 7, 9, 12, 13, 16, 19])
+            dsz = r.choice([0, 8, 100, 4096, 4096, 1 << 16, r.randint(8, 1 << 17)])
+            doff = self.slice(max(dsz, 1) + (1 << 15))
+            n = r.choice([2, 3, 5, 12])
+            chunks = []
+            pos = self.slice(1 << 18)
+            prev = None
+            for i in range(n):
+                size = r.choice([1, 6, 7, 9, 500, 1000, 1024, 3000, r.randint(1, 8192)])
+                k = r.random()
+                if prev is not None and k < 0.3:
+                    pos = prev[0] - r.choice([0, 0, 1, 100]) if prev[0] >= 100 else prev[0]      # covers the previous block
+                    size = prev[1] + r.choice([0, 1, 1000])
+                elif k < 0.5 and dsz >= 2048:
+                    pos = doff + r.randint(0, dsz // 2)                                       # a piece of the dictionary
+                elif k < 0.65:
+                    pos = self.slice(1 << 18)
+                chunks += [pos, size]
+                prev = (pos, size)
+                pos += size
+        self.emit("blockapi %d %d %d %d %d %s" % (mode, level, doff, dsz, len(chunks) // 2, " ".join(map(str, chunks))), kind="blockapi")
+
     def build(self):
         r = self.r
         n_rounds = 10 if self.quick else 40
+        # R3 regression scenarios of finding 6.5 (repaired in /repo 00d59f3): attached CDict, second block covers the first
+        d0 = self.slice(1 << 16)
+        self.blockapi(regression=(1, 3, d0, 4096, [d0 + 1000, 1000, d0 + 1000, 2000]))
+        self.blockapi(regression=(0, 3, d0, 4096, [d0 + 1000, 1000, d0 + 1000, 2000]))
         order = list(range(1, 10))
         r.shuffle(order)
         for i in range(n_rounds):
@@ -618,6 +653,8 @@ class Scenario:
                 else:
                     self.stream()
             self.bufferless(strat=strat)
+            if r.random() < 0.6:
+                self.blockapi()
             if i % 3 == 0:
                 # a match finder that never moves nextToUpdate (fast / dfast), a window smaller than a block, searched blocks
                 # followed by unsearched ones: the clamp of nextToUpdate to lowLimit is the only thing that moves it
@@ -689,7 +726,7 @@ def predict_frames(sc, out_lines, freq, K):
         if t == "B" or (t == "F" and d.get("api") in ("oneshot", "stream")):
             meta = fmeta[fi]; fi += 1
             cur = meta
-        if t == "F" and d.get("api") == "bufferless":
+        if t == "F" and d.get("api") in ("bufferless", "blockapi"):
             continue
         if not all(k in d for k in ("W", "lde", "dms", "fnc", "ntu", "ofs", "ap", "bsmax")):
             continue      # truncated line (the harness died) or a line without state
@@ -711,6 +748,9 @@ def predict_frames(sc, out_lines, freq, K):
                 fw = params.get(P_FORCEWIN, 0) if t == "F" else 0
                 drp = params.get(P_DETREF, 0) if t == "F" else 0
                 pref = params.get(P_ATTACH, 0)
+                if cur.get("kind") == "blockapi":
+                    # ZSTD_compressBegin_usingCDict / _usingDict build their own parameters: a CDict is attached (size unknown)
+                    pref = 1 if dm == 2 else 0
                 lds, has = 0, 0
                 post = None
                 if dm == 1 or (dm == 2 and pref == 3):
@@ -741,7 +781,10 @@ def predict_frames(sc, out_lines, freq, K):
                     model.append((109, [int(prev["ntu"])], ("ntu",)))     # what the match finder left
                 size = int(d["size"]); bsmax = max(1, int(d["bsmax"]))
                 blocks = [bsmax] * (size // bsmax) + ([size % bsmax] if size % bsmax else [])
-                model.append((103, [int(d["off"])] + blocks, ("rcontinue", len(blocks) > 1)))
+                if d.get("api") == "block":
+                    model.append((104, [int(d["off"]), size], ("rblock", size < 7)))      # OpBlockMode on the real context (R3)
+                else:
+                    model.append((103, [int(d["off"])] + blocks, ("rcontinue", len(blocks) > 1)))
                 expect.append((len(model) - 1, d, "C %s" % d.get("api")))
         else:
             if cur is not None and t in ("B", "C"):
@@ -826,6 +869,8 @@ def oracle_failures(out_lines, K):
                 frame = dict(mode=dm, dsz=dsz, forced=d.get("forced"))
             if d.get("rt") != "1":
                 fails.append((i, "frame does not round-trip: " + ln[:300], None))
+            elif d.get("fresh") != "1" and api == "blockapi" and (d.get("rnb", "0") != "0" or d.get("fnb", "0") != "0"):
+                pass      # block mode does not enforce the window: an index correction is visible in the output (docs/C15.md 6.6)
             elif d.get("fresh") != "1":
                 key = None
                 try:
@@ -837,7 +882,7 @@ def oracle_failures(out_lines, K):
                 except ValueError:
                     pass
                 fails.append((i, "reused context output differs from fresh context output: " + ln[:300], key))
-            frame = None if api != "bufferless" else frame
+            frame = None if api not in ("bufferless", "blockapi") else frame
         if t == "G":
             if d.get("rt") != "1":
                 fails.append((i, "long stream does not round-trip: " + ln[:300], None))
@@ -898,7 +943,7 @@ def shrink_scenario(exe, arena_mb, cmds, K, budget=25, key=None, wall=75):
     cut, k = [], 0
     for c in cmds:
         cut.append(c)
-        if c.split()[0] in ("oneshot", "stream", "bufferless", "bigstream", "mtstream"):
+        if c.split()[0] in ("oneshot", "stream", "bufferless", "blockapi", "bigstream", "mtstream"):
             k += 1
             if k >= max(frames_seen, 1):
                 break
@@ -907,7 +952,7 @@ def shrink_scenario(exe, arena_mb, cmds, K, budget=25, key=None, wall=75):
     n = 0
     i = 0
     while i < len(cmds) - 1 and n < budget and time.time() < t_end:
-        if cmds[i].split()[0] in ("oneshot", "stream", "bufferless", "bigstream", "mtstream"):
+        if cmds[i].split()[0] in ("oneshot", "stream", "bufferless", "blockapi", "bigstream", "mtstream"):
             trial = cmds[:i] + cmds[i + 1:]
             n += 1
             if failing(trial)[0]:
@@ -927,7 +972,7 @@ def ctx_job(exe, mexe, freq, K, seed, arena_mb, quick, extra_cmds=None):
                 sc.params = {}
             if t[0] == "param":
                 sc.params[int(t[1])] = int(t[2])
-            if t[0] in ("oneshot", "stream", "bufferless"):
+            if t[0] in ("oneshot", "stream", "bufferless", "blockapi"):
                 sc.emit(c, kind=t[0])
             else:
                 sc.emit(c)
